@@ -139,11 +139,15 @@ pub fn main(tier: Tier, seed: u64) -> i32 {
         v.push((2, 27_900));
         v
     } else {
-        vec![(2, 999), (2, 1000), (2, 1001), (2, 2001)]
+        // 9001: first size at which the batch size scales with the circuit; 27 900: first size with bucket size 4 through mpc
+        vec![(2, 999), (2, 1000), (2, 1001), (2, 2001), (2, 9001), (2, 27_900)]
     };
     for (n, s) in sizes {
         let c = and_chain(n, s);
         for p_eval in [0, n - 1] {
+            if s > 9000 && p_eval != 0 && !tier.is_thorough() {
+                continue;
+            }
             let all = (1u32 << n) - 1;
             let inputs = c.inputs_from_mask(if p_eval == 0 { all as u64 } else { 0b01 });
             cases.push((
